@@ -16,7 +16,7 @@ OUTSIDE = ["statistical quality of the PRNG, empirical-frequency convergence its
 
 KEY = gfi.KEY
 QUICK = ["normal", "flip", "categorical", "inner2", "innerF", "vmap(inner1)", "vmap(innerS;0,None)", "repeat(inner1)", "scan(walk)", "scan(kern2)", "switch(inner1,inner2s)", "mask(inner1)",
-         "or_else(inner1,inner2s)", "mix(inner1,inner2)", "composed", "static(scan)"]
+         "or_else(inner1,inner2s)", "mix(inner1,inner2)", "composed", "static(scan)", "scan(kernN)", "static(vmap3;y)", "static(vmapdist3;y)"]
 GJ = {"normal": genjax.normal, "flip": genjax.flip, "categorical3": genjax.categorical, "categorical2": genjax.categorical, "uniform": genjax.uniform}
 
 
@@ -99,7 +99,8 @@ def obligations(tier, seed):
                         try:
                             kd = jr.key_data(k)
                             kd = getattr(kd, "val", kd)
-                            seen.append(tuple(np.asarray(kd).ravel().tolist()))
+                            for row in np.asarray(kd).reshape(-1, np.asarray(kd).shape[-1]):  # batched keys (vmap): one entry per element
+                                seen.append(tuple(row.tolist()))
                         except Exception:  # noqa: BLE001
                             pass
                     depth[0] += 1
